@@ -433,6 +433,117 @@ Proof.
     split; [eapply tracks_ext; [exact Ext | apply tracks_swap; assumption] | eapply good_ext; [exact Ext | apply good_swap; assumption]].
 Qed.
 
+
+(* an object in the room of slot i beyond its live range is dead *)
+Lemma room_free Lf fs nb i o : ltracks Lf fs -> good nb fs -> i < K ->
+  f_room (fs i) o = true -> f_live (fs i) o = false -> Lf o = false.
+Proof.
+  intros L (_ & O & S) Hi Hr Hn. destruct (Lf o) eqn:E; [|reflexivity]. exfalso.
+  apply (L o) in E. destruct E as (j & Hj & E). destruct (Nat.eq_dec j i) as [->|N]; [congruence|].
+  apply (sep_room (fs i) (fs j) o); [apply S; auto | exact Hr|]. apply f_live_room; [apply (O j Hj) | exact E].
+Qed.
+
+(* ---- element-wise swap of the contents of two slots that stay in place (small_vector inline arrays) *)
+Lemma fp_swap_inline ls fs nb i j :
+  tracks ls fs -> good nb fs -> i < K -> j < K -> i <> j ->
+  f_size (fs j) <= f_lim (fs i) -> f_size (fs i) <= f_lim (fs j) ->
+  let fs' := set_reg (set_reg fs i (resize_fp (fs i) (f_size (fs j)))) j (resize_fp (fs j) (f_size (fs i))) in
+  exists ls', ev_run ls (inl_swap_evs (f_nm (fs i)) (f_nm (fs j)) (f_size (fs i)) (f_size (fs j))) = Some ls' /\
+    tracks ls' fs' /\ good nb fs'.
+Proof.
+  intros T G Hi Hj Nij Hji Hij fs'. pose proof T as (B & L). pose proof G as (Nz & O & S).
+  set (fi := fs i) in *. set (fj := fs j) in *. set (ca := f_size fi) in *. set (cb := f_size fj) in *.
+  destruct (O i Hi) as (Hsi & _). destruct (O j Hj) as (Hsj & _). fold fi in Hsi. fold fj in Hsj. fold ca in Hsi. fold cb in Hsj.
+  assert (Dist : forall x y, x < f_lim fi -> y < f_lim fj -> nmk (f_k fi) (f_off fi) x <> nmk (f_k fj) (f_off fj) y).
+  { intros x y Hx Hy E. destruct (S i j Hi Hj Nij) as (Sp & _). fold fi fj in Sp. unfold nmk in E. inversion E. lia. }
+  pose proof (blk_ok_fp ls fs nb i T G Hi) as Bi. pose proof (blk_ok_fp ls fs nb j T G Hj) as Bj. fold fi in Bi. fold fj in Bj.
+  assert (Li : forall x, x < ca -> is_live (nmk (f_k fi) (f_off fi) x) ls = true).
+  { intros x Hx. apply (L _). exists i. split; [exact Hi|]. fold fi. unfold f_live. rewrite in_rng_nmk.
+    apply andb_true_iff. split; [apply Nat.leb_le | apply Nat.ltb_lt]; lia. }
+  assert (Lj : forall x, x < cb -> is_live (nmk (f_k fj) (f_off fj) x) ls = true).
+  { intros x Hx. apply (L _). exists j. split; [exact Hj|]. fold fj. unfold f_live. rewrite in_rng_nmk.
+    apply andb_true_iff. split; [apply Nat.leb_le | apply Nat.ltb_lt]; lia. }
+  assert (Fi : forall x, ca <= x < f_lim fi -> is_live (nmk (f_k fi) (f_off fi) x) ls = false).
+  { intros x Hx. apply (room_free _ fs nb i _ L G Hi); fold fi.
+    - unfold f_room. rewrite in_rng_nmk. apply andb_true_iff. split; [apply Nat.leb_le | apply Nat.ltb_lt]; lia.
+    - unfold f_live. rewrite in_rng_nmk. fold ca. apply andb_false_iff. right. apply Nat.ltb_ge. lia. }
+  assert (Fj : forall x, cb <= x < f_lim fj -> is_live (nmk (f_k fj) (f_off fj) x) ls = false).
+  { intros x Hx. apply (room_free _ fs nb j _ L G Hj); fold fj.
+    - unfold f_room. rewrite in_rng_nmk. apply andb_true_iff. split; [apply Nat.leb_le | apply Nat.ltb_lt]; lia.
+    - unfold f_live. rewrite in_rng_nmk. fold cb. apply andb_false_iff. right. apply Nat.ltb_ge. lia. }
+  unfold inl_swap_evs, f_nm. fold fi fj.
+  destruct (run_swap_evs (f_k fi) (f_off fi) (f_k fj) (f_off fj) (Nat.min ca cb) 0 ls Bi Bj) as (l1 & E1 & B1 & L1).
+  { intros x y Hx Hy. apply Dist; lia. }
+  { intros x Hx. apply Li. lia. }
+  { intros x Hx. apply Lj. lia. }
+  rewrite (ev_run_app_some _ _ _ _ E1).
+  assert (G1 : good nb (set_reg fs j (resize_fp fj ca))) by (apply good_resize; auto).
+  assert (Ej : set_reg fs j (resize_fp fj ca) i = fi) by (rewrite set_reg_other by exact Nij; reflexivity).
+  assert (Efs' : forall t, t < K -> fs' t = set_reg (set_reg fs j (resize_fp fj ca)) i (resize_fp fi cb) t).
+  { intros t _. unfold fs', set_reg. fold fi fj ca cb. destruct (Nat.eqb_spec t j) as [Et|Nt]; destruct (Nat.eqb_spec t i) as [Et'|Nt']; subst; try reflexivity; congruence. }
+  assert (Gf : good nb fs').
+  { eapply good_ext; [exact Efs'|]. replace (resize_fp fi cb) with (resize_fp (set_reg fs j (resize_fp fj ca) i) cb) by now rewrite Ej.
+    apply good_resize; auto. rewrite Ej. exact Hji. }
+  destruct (Nat.le_ge_cases ca cb) as [Le|Le].
+  - rewrite Nat.min_l by lia. rewrite Nat.sub_diag. cbn [reloc_evs seq flat_map app].
+    destruct (run_reloc_evs (f_k fj) (f_off fj) (f_k fi) (f_off fi) (cb - ca) ca l1) as (l2 & E2 & B2 & L2).
+    { destruct Bi as [->|Bi]; [now left | right; now rewrite B1]. }
+    { intros x y Hx Hy E. apply (Dist y x); [lia | lia | now symmetry]. }
+    { intros x Hx. rewrite L1. apply Lj. lia. }
+    { intros x Hx. rewrite L1. apply Fi. lia. }
+    exists l2. split; [exact E2|]. split; [|exact Gf]. eapply tracks_ext; [exact Efs'|]. split.
+    + apply (btracks_same (fun b => has_block b ls) (fun b => has_block b l2) _ i); [apply (btracks_same (fun b => has_block b ls) (fun b => has_block b ls) fs j); [exact B | reflexivity | reflexivity]| |].
+      * intros b. now rewrite B2, B1.
+      * now rewrite Ej.
+    + apply (ltracks_update (fun o => is_live o ls && negb (in_rng o (f_k fj) (f_off fj + ca) (f_off fj + ca + (cb - ca)))) _ _ i _
+               (fun o => in_rng o (f_k fi) (f_off fi + ca) (f_off fi + ca + (cb - ca))) (fun _ => false) nb).
+      * apply (ltracks_update _ _ fs j _ (fun _ => false) (fun o => in_rng o (f_k fj) (f_off fj + ca) (f_off fj + ca + (cb - ca))) nb L G Hj).
+        -- intros o. now rewrite orb_false_r.
+        -- intros o Ho. fold fj. apply in_rng_spec in Ho. apply in_rng_spec. lia.
+        -- intros o. fold fj. unfold f_live, resize_fp, in_rng. cbn [f_k f_off f_size]. fold cb. rewrite orb_false_r.
+           destruct (Nat.eqb (fst o) (f_k fj)); cbn [andb negb]; [|reflexivity].
+           destruct (Nat.leb_spec (f_off fj) (snd o)), (Nat.ltb_spec (snd o) (f_off fj + ca)), (Nat.ltb_spec (snd o) (f_off fj + cb)),
+                    (Nat.leb_spec (f_off fj + ca) (snd o)), (Nat.ltb_spec (snd o) (f_off fj + ca + (cb - ca))); cbn; try reflexivity; lia.
+      * exact G1.
+      * exact Hi.
+      * intros o. rewrite L2, L1. now rewrite andb_true_r.
+      * intros o Ho. discriminate.
+      * intros o. rewrite Ej. unfold f_live, resize_fp, in_rng. cbn [f_k f_off f_size negb]. fold ca. rewrite andb_true_r.
+        destruct (Nat.eqb (fst o) (f_k fi)); cbn [andb orb]; [|reflexivity].
+        destruct (Nat.leb_spec (f_off fi) (snd o)), (Nat.ltb_spec (snd o) (f_off fi + cb)), (Nat.ltb_spec (snd o) (f_off fi + ca)),
+                 (Nat.leb_spec (f_off fi + ca) (snd o)), (Nat.ltb_spec (snd o) (f_off fi + ca + (cb - ca))); cbn; try reflexivity; lia.
+  - rewrite Nat.min_r by lia. rewrite Nat.sub_diag. cbn [reloc_evs seq flat_map]. rewrite app_nil_r.
+    destruct (run_reloc_evs (f_k fi) (f_off fi) (f_k fj) (f_off fj) (ca - cb) cb l1) as (l2 & E2 & B2 & L2).
+    { destruct Bj as [->|Bj]; [now left | right; now rewrite B1]. }
+    { intros x y Hx Hy. apply Dist; lia. }
+    { intros x Hx. rewrite L1. apply Li. lia. }
+    { intros x Hx. rewrite L1. apply Fj. lia. }
+    exists l2. split; [exact E2|]. split; [|exact Gf].
+    assert (G2 : good nb (set_reg fs i (resize_fp fi cb))) by (apply good_resize; auto).
+    assert (Ei : set_reg fs i (resize_fp fi cb) j = fj) by (rewrite set_reg_other by congruence; reflexivity).
+    split.
+    + apply (btracks_same (fun b => has_block b ls) (fun b => has_block b l2) _ j); [apply (btracks_same (fun b => has_block b ls) (fun b => has_block b ls) fs i); [exact B | reflexivity | reflexivity]| |].
+      * intros b. now rewrite B2, B1.
+      * now rewrite Ei.
+    + apply (ltracks_update (fun o => is_live o ls && negb (in_rng o (f_k fi) (f_off fi + cb) (f_off fi + cb + (ca - cb)))) _ _ j _
+               (fun o => in_rng o (f_k fj) (f_off fj + cb) (f_off fj + cb + (ca - cb))) (fun _ => false) nb).
+      * apply (ltracks_update _ _ fs i _ (fun _ => false) (fun o => in_rng o (f_k fi) (f_off fi + cb) (f_off fi + cb + (ca - cb))) nb L G Hi).
+        -- intros o. now rewrite orb_false_r.
+        -- intros o Ho. fold fi. apply in_rng_spec in Ho. apply in_rng_spec. lia.
+        -- intros o. fold fi. unfold f_live, resize_fp, in_rng. cbn [f_k f_off f_size]. fold ca. rewrite orb_false_r.
+           destruct (Nat.eqb (fst o) (f_k fi)); cbn [andb negb]; [|reflexivity].
+           destruct (Nat.leb_spec (f_off fi) (snd o)), (Nat.ltb_spec (snd o) (f_off fi + cb)), (Nat.ltb_spec (snd o) (f_off fi + ca)),
+                    (Nat.leb_spec (f_off fi + cb) (snd o)), (Nat.ltb_spec (snd o) (f_off fi + cb + (ca - cb))); cbn; try reflexivity; lia.
+      * exact G2.
+      * exact Hj.
+      * intros o. rewrite L2, L1. now rewrite andb_true_r.
+      * intros o Ho. discriminate.
+      * intros o. rewrite Ei. unfold f_live, resize_fp, in_rng. cbn [f_k f_off f_size negb]. fold cb. rewrite andb_true_r.
+        destruct (Nat.eqb (fst o) (f_k fj)); cbn [andb orb]; [|reflexivity].
+        destruct (Nat.leb_spec (f_off fj) (snd o)), (Nat.ltb_spec (snd o) (f_off fj + ca)), (Nat.ltb_spec (snd o) (f_off fj + cb)),
+                 (Nat.leb_spec (f_off fj + cb) (snd o)), (Nat.ltb_spec (snd o) (f_off fj + cb + (ca - cb))); cbn; try reflexivity; lia.
+Qed.
+
 End Tracks.
 
 Lemma tracks_all_empty K ls : tracks K ls (fun _ => fp0) -> blocks ls = [] /\ live ls = [].
